@@ -84,7 +84,11 @@ def run(ctx):
         return
     todo = []
     for (kind, img, fr), line, e in zip(cases, lines, encs):
-        r = pl.parse_enc_output(e) if e and e.startswith("ok") else None
+        try:
+            r = pl.parse_enc_output(e) if e and e.startswith("ok") else None
+        except (IndexError, ValueError, AssertionError):
+            r = None
+            ctx.count("encoder:unparsable-output")
         if r is None:
             ctx.count("encoder:" + (e.split()[1] if e and len(e.split()) > 1 else "none"))
             continue
@@ -104,7 +108,17 @@ def run(ctx):
             ctx.count("multi-group-frames")
         for p in r[1][0]["paths"]:
             ctx.count("path:" + p)
-        good = compare(ctx, kind, line, r, d or "crash")
+        d = d or "crash"
+        st0, kf0 = pl.parse_img_output(d) if d.startswith("ok") else (d, None)
+        same = kf0 and isinstance(kf0[0], list) and [(c[1], c[2], c[3]) for c in kf0[0]] == r[1][0]["chans"]
+        if not same:
+            # confirm in a fresh process before reporting (a loaded machine can cut a batch short)
+            d2 = run_lines_robust([ctx.harness_bin("img")], [f"decode {r[0]}"], per_line_timeout=120)[0] or "crash"
+            if d2 != d:
+                ctx.count("decode-answer-not-reproduced")
+                ctx.notes.setdefault("unreproduced", []).append({"plan": line[:300], "first": d[:80], "second": d2[:80]})
+            d = d2
+        good = compare(ctx, kind, line, r, d)
         if good and len(ctx.cov["samples"]) < 4 and len(line) < 700:
             ctx.sample({"kind": kind, "plan": line, "codestream_hex": r[0]})
     # both buffer widths on the narrow-eligible part (C12 does this in depth)
